@@ -213,7 +213,7 @@ class Gen17:
 # ------------------------------------------------------------------ run ----
 
 IMPORTS = "From KP Require Import model.Base model.Trace model.M5time corr.C17corr."
-CODES = {1: "deploy-bound", 2: "pause-stop-bound", 3: "non-blocking", 4: "probe-after-dead"}
+CODES = {1: "deploy-bound", 2: "pause-stop-bound", 3: "non-blocking", 4: "probe-after-dead", 9: "bounds-monitor (standalone)"}
 
 
 # kinds that neither the view nor the monitor reads; such events by non-command actors are
@@ -370,6 +370,8 @@ def run(tier, seed):
             "correspondence": {"traces": len(outs), "rejected_by_acceptor": len(rejected), "monitor_failures": len(mon_fail)},
             "not_generated": "upgraded (hijacked) connections: the harness' ResponseRecorder is not an http.Hijacker",
         })
+        res.notes.append("link proved in corr/C17corr.v: accepted_bounds_ok (accepted tr -> c17_bounds_ok tr); the probe part of the "
+                         "monitor (code 4) is tied to the view only by evaluating both on every trace")
         res.assumptions = [
             "virtual clock (testing/synctest): timers fire exactly and CPU time is zero; the timing theorems are stated for traces without KParked",
             "model/M5time.v is hand-written; tied to router.go/load_balancer.go/target.go/health_check.go/service.go only by this correspondence run",
